@@ -227,8 +227,8 @@ def sortStrs (xs : List String) : List String := xs.foldr insertStr []
 
 /-- the stored ADF denotes the submitted code: well-formed table, names as parsed, and every root
 evaluates like its condition under every total assignment -/
-def storedAdfOK (code : String) (a : SAdf) : String :=
-  match conditions code with
+def storedAdfOKC (cond : Except Err (List String × List Fm)) (a : SAdf) : String :=
+  match cond with
   | .error _ => "violated stored-adf-for-unparseable-code"
   | .ok (names, fs) =>
     if !wfCheck a.nodes then "violated table-not-wellformed"
@@ -244,17 +244,19 @@ def storedAdfOK (code : String) (a : SAdf) : String :=
       | none => "ok"
 
 /-- the answer of a strategy by the definitions, as sorted T/F/u patterns -/
-def specAnswer (code key : String) : String :=
-  match conditions code with
+def storedAdfOK (code : String) (a : SAdf) : String := storedAdfOKC (conditions code) a
+
+def specAnswerC (cond : Except Err (List String × List Fm)) (key : String) : String :=
+  match cond with
   | .error _ => "error"
   | .ok (_, fs) =>
     let n := fs.length
     let pats : List WebSem.I3 :=
       if key == "parse_only" then
-        [fs.map (fun f => WebSem.val3 n f (List.replicate n none))]
+        [WebSem.gamma fs (List.replicate n none)]
       else if key == "ground" then [WebSem.grounded fs]
-      else if key == "complete" then WebSem.complete fs
-      else WebSem.stable fs
+      else if key == "complete" then WebSem.completeOf fs
+      else WebSem.stableOf fs
     dashIfEmpty (joinW " " (sortStrs (pats.map WebSem.showI3)))
 
 def parseGraphText (w : String) : Option GraphD :=
@@ -319,8 +321,10 @@ lo/hi edges (no dangling edge, no unreachable node, every node an inner node wit
 edge or one of the terminals `0`/`1`), it agrees with the stored node table wherever that table has
 the node (nodes created while solving are beyond it), root labels are right, and walking from the
 root labelled `s` evaluates `s`'s condition under every total assignment that extends the shown model -/
-def graphOK (code : String) (a : SAdf) (ac : List Nat) (g : GraphD) : String :=
-  match conditions code with
+def specAnswer (code key : String) : String := specAnswerC (conditions code) key
+
+def graphOKC (cond : Except Err (List String × List Fm)) (a : SAdf) (ac : List Nat) (g : GraphD) : String :=
+  match cond with
   | .error _ => "violated graph-for-unparseable-code"
   | .ok (names, fs) =>
     let ns := a.nodes
@@ -357,14 +361,17 @@ def graphOK (code : String) (a : SAdf) (ac : List Nat) (g : GraphD) : String :=
     | none =>
       -- the shown model as a three-valued interpretation
       let w : WebSem.I3 := ac.map (fun t => if t == 1 then some true else if t == 0 then some false else none)
+      let cs := WebSem.completions n w
       let bad := (List.range n).find? (fun s =>
         match g.nodes.find? (fun nd => nd.roots.contains (names.getD s "?")) with
         | none => true
         | some root =>
-          (WebSem.completions n w).any (fun m =>
+          cs.any (fun m =>
             walk g names (WebSem.asgOf m) (walkFuel g) root.id != some ((fs.getD s Fm.bot).sem (WebSem.asgOf m))))
       match bad with
       | some s => s!"violated walk-from-root-of-statement {s}"
       | none => "ok"
+
+def graphOK (code : String) (a : SAdf) (ac : List Nat) (g : GraphD) : String := graphOKC (conditions code) a ac g
 
 end ServerAdf
